@@ -452,6 +452,7 @@ Definition core (c : cfg) (s : state) (e : event) : state * list output * epi :=
       let sid := nsend s in
       let s0 := set_ids s (nsend s + 1) (nload s) (ntimer s) in
       if (cnt <? 1) || (bytes <? 0) then (s0, [OOutcome sid (OFail K_VALUE 0)], NoEpi)
+      else if stopping s then (s0, [OOutcome sid (OFail K_CANCEL 0)], NoEpi)   (* 241-243: refused once stopping *)
       else
         let x := {| s_id := sid; s_topic := topic; s_choice := choice; s_cnt := cnt; s_bytes := bytes |} in
         (set_outstanding (set_queue s0 (queue s0 ++ [x]) (wcnt s0 + cnt) (wbytes s0 + bytes)) (outstanding s0 ++ [sid]),
